@@ -162,7 +162,7 @@ static void h_op(void)
     int64_t off = h_argi("off", 1), L = h_argi("L", 0); unsigned char *buf;
     if (!D || off < 0 || off > DL + 1 || L < 0) { h_out("bad-op"); return; }
     buf = malloc((size_t) L + 1); memset(buf, 0xAA, (size_t) L + 1);
-    { int status = esl_abc_TextizeN(A, D + off, L, (char *) buf); h_out("%s %s", h_status(status), h_hex(buf, L)); }
+    { int status = esl_abc_TextizeN(A, D + off, L, (char *) buf); h_out("%s %s", h_status(status), h_hex(buf, L + 1)); }   /* L bytes + one guard byte that must stay 0xAA */
     free(buf);
   }
   else if (!strcmp(op, "dsqnull")) { drop_D(); h_out("ok"); }
@@ -173,7 +173,8 @@ static void h_op(void)
     memcpy(inmap, A->inmap, 128); inmap[0] = esl_abc_XGetUnknown(A);
     if (h_arg("map")) { int64_t mn; unsigned char *m = h_unhex(h_arg("map"), &mn); if (mn == 128) memcpy(inmap, m, 128); free(m); }
     if (lk && !strcmp(lk, "unknown")) L = -1;
-    status = esl_abc_dsqcat(inmap, &D, &L, (char *) s, (nk && !strcmp(nk, "unknown")) ? -1 : (esl_pos_t) n);
+    if (h_arg("snull")) status = esl_abc_dsqcat(inmap, &D, &L, NULL, -1);      /* documented call mode: no text at all */
+    else status = esl_abc_dsqcat(inmap, &D, &L, (char *) s, (nk && !strcmp(nk, "unknown")) ? -1 : (esl_pos_t) n);
     free(s);
     if (h_exception_seen) { h_out("exception %s", h_status(status)); drop_D(); return; }
     DL = L;
